@@ -1,7 +1,7 @@
 """C11 - the table cache never yields a wrong table, even after a crash."""
 import ast
 
-from ..astutil import catches_everything, dotted, method_call, universal
+from ..astutil import catches_everything, dotted, handler_names, method_call, universal
 from ..cfg import canon_test, cfg_of, fact_key, norm, walk_own
 from ..consteval import fold_in
 from ..mutate import B, M
@@ -22,7 +22,7 @@ EXPLANATION = (
     'both use the CRC announced by the device; R6 write-capable calls take paths derived from rw_cache only; R7 a hit is used only '
     'after its elements were validated against the element class being fetched (CRC collisions between log and parameter tables).')
 ASSUMPTIONS = ['json.load rejects every strict prefix of a JSON object document', 'glob() does not write']
-FLOORS = {'R1': 4, 'R2': 3, 'R3': 3, 'R4': 10, 'R5': 4, 'R6': 3, 'R7': 2}
+FLOORS = {'R1': 4, 'R2': 3, 'R3': 3, 'R4': 10, 'R5': 4, 'R6': 3, 'R7': 3}
 
 # element attributes deliberately not cached
 REVIEWED_UNCACHED = {'persistent': 're-queried from the device after every load because `extended` is cached'}
@@ -136,6 +136,16 @@ def check(ctx):
                 (g1, it1), (el, it2) = u['gens']
                 ok7 = it1 in ('%s.values()' % vf.params[1],) and it2 == '%s.values()' % g1 and u['pred'] == canon_test(ast.parse('isinstance(%s, self.element_class)' % el, mode='eval').body)
             ctx.inst('R7', vf, 'validator-checks-every-element', ok7, 'the validator must test every cached element against self.element_class')
+            # whatever parses as JSON reaches the validator (a list, a string, a dictionary of numbers): `.values()` of such a value
+            # raises AttributeError inside the packet callback and the connection never completes, so that has to end as a miss
+            walks = [c for c in ast.walk(vf.node) if method_call(c, 'values')]
+            tries = [t for t in ast.walk(vf.node) if isinstance(t, ast.Try) and all(any(c is x for b_ in t.body for x in ast.walk(b_)) for c in walks)]
+            soft = [t for t in tries for h in t.handlers if (catches_everything(h) or 'AttributeError' in handler_names(h)) and
+                    any(isinstance(r, ast.Return) and isinstance(r.value, ast.Constant) and not r.value.value for r in h.body)]
+            typed = any(isinstance(c, ast.Call) and norm(c.func) == 'isinstance' and len(c.args) == 2 and 'dict' in norm(c.args[1]) for c in ast.walk(vf.node))
+            if walks and not typed:
+                ctx.inst('R7', vf, 'wrong-shape-is-a-miss', bool(soft), 'a cached document that is not a table of tables (any other JSON value) makes `.values()` raise AttributeError: '
+                         'the validator must turn that into False (a miss), not into an exception in the packet callback')
     ctx.inst('R7', fcb, 'hit-validated-against-kind', ok7,
              'the cache key is the CRC only: a hit must be validated against the element class being fetched before it is adopted '
              '(a log and a parameter table with equal CRC share one file)')
